@@ -43,6 +43,9 @@ type Scenario struct {
 	// Twice runs every schedule twice and compares the outcomes (sampling of
 	// map iteration order).
 	Twice bool
+	// DeadlockIsNotMine: a deadlock ends the execution without an outcome and
+	// without a violation (C05: lost wake-ups are C12's findings); counted.
+	DeadlockIsNotMine bool
 	// Post, when set, inspects the outcome of an execution.
 	Post func(outcome string) *explore.Violation
 }
@@ -72,6 +75,7 @@ func (m *managedRT) Fail(sig, format string, a ...any) {
 	}
 }
 func (m *managedRT) Logf(format string, a ...any)              { sched.Logf(format, a...) }
+func (m *managedRT) Quiesce()                                     { sched.Quiesce() }
 func (m *managedRT) Outcome(s string)                          { m.outcome = s }
 func (m *managedRT) OnDeadlock(f func([]e3scn.Blocked) string) { m.classify = f }
 
@@ -97,9 +101,7 @@ func RunOnce(sc *Scenario, x *explore.Exec, prefixLen int) (*explore.Violation, 
 		}
 		var bl []e3scn.Blocked
 		for _, t := range r.Threads {
-			if !t.Finished {
-				bl = append(bl, e3scn.Blocked{ID: t.ID, Name: t.Name, Daemon: t.Daemon, What: t.What, Stack: t.Stack})
-			}
+			bl = append(bl, e3scn.Blocked{ID: t.ID, Name: t.Name, Daemon: t.Daemon, What: t.What, Stack: t.Stack, Finished: t.Finished, LastPreempt: t.LastPreempt})
 		}
 		return rt.classify(bl)
 	}
@@ -113,6 +115,9 @@ func RunOnce(sc *Scenario, x *explore.Exec, prefixLen int) (*explore.Violation, 
 		x.Capped = true
 		return nil, "", res
 	case "deadlock":
+		if sc.DeadlockIsNotMine {
+			return nil, "", res
+		}
 		return explore.Viol("deadlock/"+res.Class, "%s", res.Msg), "", res
 	case "abort":
 		return explore.Viol(abortSig(res.Msg), "%s", res.Msg), "", res
@@ -166,10 +171,14 @@ func abortSig(msg string) string {
 	return kind + "/" + name + "/" + strings.TrimSpace(text)
 }
 
+// LastKind is how the first run of the last Execute ended ("ok", "deadlock", ...).
+var LastKind string
+
 // Execute runs one choice vector (twice when the scenario asks for it).
 func Execute(sc *Scenario, bound int, prefix []int, record bool, st *stateSink) (x *explore.Exec, v *explore.Violation, infra string, outcome string) {
 	ex := &explore.Explorer{Bound: bound}
 	var out1 string
+	LastKind = ""
 	body := func(o *string) explore.Body {
 		return func(x *explore.Exec) *explore.Violation {
 			v, out, res := RunOnce(sc, x, len(prefix))
@@ -177,6 +186,9 @@ func Execute(sc *Scenario, bound int, prefix []int, record bool, st *stateSink) 
 				st.add(res.States)
 			}
 			*o = out
+			if LastKind == "" {
+				LastKind = res.Kind
+			}
 			return v
 		}
 	}
@@ -245,6 +257,7 @@ type reply struct {
 	Bye      bool     `json:"bye,omitempty"`
 	RSSMB    int      `json:"rss,omitempty"`
 	Unstable string   `json:"unstable,omitempty"`
+	Kind     string   `json:"k,omitempty"`
 }
 
 const workerMaxJobs = 40000
@@ -285,6 +298,7 @@ func serveWorker(scs []Scenario) {
 			}
 			rp.Steps, rp.Capped = x.Steps, x.Capped
 			rp.Outcome = outcome
+			rp.Kind = LastKind
 			rp.States = append([]uint64(nil), sink.new...)
 			if v != nil {
 				rp.Sig, rp.Msg = v.Sig, v.Msg
@@ -344,7 +358,10 @@ func startWorker() (*worker, error) {
 	if err != nil {
 		return nil, err
 	}
-	cmd := exec.Command(os.Args[0], "-e3worker")
+	cmd := exec.Command(os.Args[0], append(append([]string{}, os.Args[1:]...), "-e3worker")...)
+	// one P per worker: exactly one managed goroutine runs at a time anyway, and
+	// hand-offs between goroutines of the same P are direct switches
+	cmd.Env = append(os.Environ(), "GOMAXPROCS=1")
 	cmd.ExtraFiles = []*os.File{jr, rw}
 	cmd.Stdout = os.Stderr
 	cmd.Stderr = os.Stderr
@@ -410,6 +427,8 @@ type exploration struct {
 	found    map[string]*explore.Found
 	infra    []string
 	maxRSS   int
+	dead     int64
+	outVec   map[string][]int
 }
 
 func (e *exploration) run(nw int, states map[uint64]struct{}) (explore.Stats, []*explore.Found) {
@@ -418,6 +437,7 @@ func (e *exploration) run(nw int, states map[uint64]struct{}) (explore.Stats, []
 	e.stack = [][]int{{}}
 	e.states = states
 	e.outcomes = map[string]int{}
+	e.outVec = map[string][]int{}
 	e.found = map[string]*explore.Found{}
 	e.st = explore.Stats{Bound: e.bound, Exhaustive: true}
 	if e.maxFound == 0 {
@@ -561,8 +581,14 @@ func (e *exploration) loop() {
 			e.st.CappedExecs++
 			e.st.Exhaustive = false
 		}
+		if rp.Kind == "deadlock" {
+			e.dead++
+		}
 		if rp.Outcome != "" {
 			e.outcomes[rp.Outcome]++
+			if old, ok := e.outVec[rp.Outcome]; !ok || nonzero(rp.Choices) < nonzero(old) || (nonzero(rp.Choices) == nonzero(old) && len(rp.Choices) < len(old)) {
+				e.outVec[rp.Outcome] = rp.Choices
+			}
 		}
 		for _, fp := range rp.States {
 			e.states[fp] = struct{}{}
@@ -589,6 +615,9 @@ type Summary struct {
 	PerScenario []map[string]any
 	Outcomes    map[string][]string // scenario -> distinct outcomes (up to 12)
 	Found       map[string][]*explore.Found
+	// OutcomeVectors: scenario -> outcome -> a choice vector with the fewest
+	// deviations that produced it (from the last completed bound).
+	OutcomeVectors map[string]map[string][]int
 }
 
 // Main runs the check: worker mode, replay mode, or the exploration.
@@ -608,7 +637,7 @@ func Main(r *harness.Run, scs []Scenario, rule string) *Summary {
 	if nw <= 0 {
 		nw = runtime.NumCPU()
 	}
-	sum := &Summary{Outcomes: map[string][]string{}, Found: map[string][]*explore.Found{}}
+	sum := &Summary{Outcomes: map[string][]string{}, Found: map[string][]*explore.Found{}, OutcomeVectors: map[string]map[string][]int{}}
 	exhaustive := true
 	var totExec, totTrans, totChoice, maxDepth int64
 	totOutcomes := 0
@@ -619,6 +648,7 @@ func Main(r *harness.Run, scs []Scenario, rule string) *Summary {
 		completed := -1
 		maxRSS := 0
 		var scFound []*explore.Found
+		var dead int64
 		for b := 0; b <= sc.Bound; b++ {
 			e := &exploration{sc: sc, bound: b, deadline: r.Deadline()}
 			st, found := e.run(nw, allStates)
@@ -632,6 +662,8 @@ func Main(r *harness.Run, scs []Scenario, rule string) *Summary {
 				scFound = found
 			}
 			last = st
+			dead = e.dead
+			sum.OutcomeVectors[sc.Sc.Name] = e.outVec
 			if e.maxRSS > maxRSS {
 				maxRSS = e.maxRSS
 			}
@@ -667,7 +699,7 @@ func Main(r *harness.Run, scs []Scenario, rule string) *Summary {
 			"executions": last.Executions, "choice_points": last.ChoicePoints, "scheduling_points": last.Transitions,
 			"max_choice_points_in_one_execution": last.MaxDepth, "distinct_outcomes": last.Outcomes,
 			"capped_executions": last.CappedExecs, "violation_signatures": sigs, "wall_s": round1(last.WallS),
-			"worker_max_sys_mb": maxRSS,
+			"worker_max_sys_mb": maxRSS, "executions_ending_in_deadlock": dead,
 		}
 		sum.PerScenario = append(sum.PerScenario, ps)
 		fmt.Printf("scenario %-44s bound=%d/%d execs=%d choice-points=%d sched-points=%d outcomes=%d capped=%d violations=%d %.1fs\n",
@@ -690,6 +722,16 @@ func Main(r *harness.Run, scs []Scenario, rule string) *Summary {
 	r.Cov["max_choice_points"] = maxDepth
 	r.Cov["worker_processes"] = nw
 	return sum
+}
+
+func nonzero(v []int) int {
+	n := 0
+	for _, c := range v {
+		if c != 0 {
+			n++
+		}
+	}
+	return n
 }
 
 func round1(f float64) float64 { return float64(int(f*10+0.5)) / 10 }
@@ -719,6 +761,13 @@ func replay(r *harness.Run, scs []Scenario) {
 		x, v, infra, outcome := Execute(sc, 1<<30, f.Case.Choices, true, nil)
 		for _, l := range x.Trace {
 			fmt.Println(" ", l)
+		}
+		fmt.Println("condensed schedule (thread switches only):")
+		for _, l := range x.Trace {
+			if strings.Contains(l, "PREEMPTED") || strings.Contains(l, "BLOCKS") || strings.Contains(l, "   -> T") || strings.Contains(l, "FINISHED") ||
+				strings.Contains(l, " go ") || strings.Contains(l, "spawns") || strings.Contains(l, "PANIC") || strings.Contains(l, "ORACLE") || strings.Contains(l, "Exit(") {
+				fmt.Println(" ", l)
+			}
 		}
 		if infra != "" {
 			fmt.Println("INFRASTRUCTURE ERROR:", infra)
